@@ -241,6 +241,21 @@ def run_c20(chk, tier, seed):
         rel = abs(got - want) / max(abs(want), 1e-300)
         results.append(("h-h/2/{}/steps={}".format(curve, steps), rel <= 1e-7 and len(fine) == 4 * len(elems),
                         dict(curve=curve, history_seed=hs, steps=steps, n=len(elems), got=got, want=want, rel=rel)))
+        # homogeneity: both estimators are defined through linear maps of (data, density); scaling both by a power of two scales the
+        # h-h/2 value by the same factor and the hierarchical indicators by its square, exactly in floating point up to the solver
+        # (squared local errors of size 1e-12 .. 1e-24 occur late in an adaptive run; nothing may depend on absolute magnitudes)
+        for sc in (2.0 ** -40, 2.0 ** 40):
+            g_s = (lambda es, sc=sc: sc * glin_vec(es))
+            with quiet():
+                hh2_1 = float(HH2ErrorEstimator(SL=SL, g=glin_vec, use_mp=False).estimate(elems, Phi))
+                hh2_s = float(HH2ErrorEstimator(SL=SL, g=g_s, use_mp=False).estimate(elems, sc * Phi))
+                hi_1 = HierarchicalErrorEstimator(SL=SL, g=glin_vec).estimate(elems, Phi)
+                hi_s = HierarchicalErrorEstimator(SL=SL, g=g_s).estimate(elems, sc * Phi)
+            n_eval += 4 * len(elems)
+            r_hh2 = abs(hh2_s - sc * hh2_1) / max(abs(sc * hh2_1), 1e-300)
+            r_hi = float(np.max(np.abs(hi_s - sc * sc * hi_1) / np.maximum(np.abs(sc * sc * hi_1), 1e-300)))
+            results.append(("homogeneous-in-data-and-density/{}/steps={}/scale=2^{}".format(curve, steps, int(round(math.log2(sc)))),
+                            r_hh2 <= 1e-9 and r_hi <= 1e-9, dict(curve=curve, scale=sc, hh2=(hh2_s, sc * hh2_1), rel_hh2=r_hh2, rel_hier=r_hi)))
         # the second call on the SAME estimator objects, with the element list (and the density) in another order, must give what
         # fresh estimator objects give: nothing may be kept between calls that depends on the order of the list
         perm = list(range(len(elems)))
